@@ -532,6 +532,7 @@ pub fn check_noise(cfg: &BerCfg, obs: &BerObs, label: &str) -> (Vec<Violation>, 
         let mut re_next_im = Corr::default();
         let mut im_next_re = Corr::default();
         let mut cross_worker = Corr::default();
+        let mut cross_worker_lag = [Corr::default(), Corr::default()];
         let mut cross_frame = Corr::default();
         let (mut amp_num, mut amp_den) = (0.0, 0.0);
         let mut max_res: f64 = 0.0;
@@ -611,6 +612,19 @@ pub fn check_noise(cfg: &BerCfg, obs: &BerObs, label: &str) -> (Vec<Violation>, 
                     cross_worker.add(*a, *b);
                 }
             }
+            // the same between frame j of one worker and frame j -/+ 1 of the other (generators
+            // seeded with `seed + worker` per point and `+ frame` per frame collide exactly there:
+            // seeded change C12-r8a-2)
+            for (fa, fb) in ws[0].iter().skip(1).zip(ws[1].iter()) {
+                for (a, b) in fa.iter().zip(fb.iter()) {
+                    cross_worker_lag[0].add(*a, *b);
+                }
+            }
+            for (fa, fb) in ws[0].iter().zip(ws[1].iter().skip(1)) {
+                for (a, b) in fa.iter().zip(fb.iter()) {
+                    cross_worker_lag[1].add(*a, *b);
+                }
+            }
         }
         if let Some(m) = per_frame_bad {
             v.push(Violation::new("noise-frame", m));
@@ -654,6 +668,11 @@ pub fn check_noise(cfg: &BerCfg, obs: &BerObs, label: &str) -> (Vec<Violation>, 
         }
         if cross_worker.n > 1000.0 {
             flag("same-index correlation between two workers", cross_worker.r(), 0.0, 7.0 / cross_worker.n.sqrt());
+        }
+        for (li, c) in cross_worker_lag.iter().enumerate() {
+            if c.n > 1000.0 {
+                flag(if li == 0 { "same-index correlation between frame j+1 of one worker and frame j of another" } else { "same-index correlation between frame j of one worker and frame j+1 of another" }, c.r(), 0.0, 7.0 / c.n.sqrt());
+            }
         }
         let amp = amp_num / amp_den;
         flag("recovered signal amplitude", amp, 1.0, 7.0 * sigma / amp_den.sqrt() + 1e-9);
@@ -843,6 +862,107 @@ pub fn long_frame_probe(lc: &LongCfg) -> Option<Violation> {
     }
 }
 
+
+// ---------------------------------------------------------------------------
+// repeated Eb/N0 values
+// ---------------------------------------------------------------------------
+
+/// A list of Eb/N0 values may name the same value twice in a row. The structural population
+/// keeps its points distinct (frames are attributed to points by their LLR scale), so this probe
+/// covers lists with consecutive repeats on its own: one worker, BPSK, a small staircase code, a
+/// probe decoder that measures the LLR scale of every frame. Judged only if exactly one decoder
+/// was built per point (then the k-th decoder serves the k-th point): the scale of point k
+/// relative to point 0 must be 10^((e_k - e_0)/10) within 15 %. (Seeded change C12-r8a-3 drops
+/// consecutive repeats from the list but not from the table of noise sigmas.)
+pub fn repeated_ebn0_probe(ebn0s: &[f32], seed: u64) -> Option<Violation> {
+    use ldpc_toolbox::decoder::{DecoderOutput, LdpcDecoder, factory::DecoderFactory};
+    use ldpc_toolbox::simulation::factory::{BerTestBuilder, Modulation};
+    use ldpc_toolbox::sparse::SparseMatrix;
+    use std::sync::{Arc, Mutex};
+    let mut g = Stream::new(seed, "c12-repeat");
+    let m = random_code(&mut g, 12, 12, Tail::Staircase, 2);
+    let h = m.to_sparse();
+    #[derive(Clone)]
+    struct F {
+        builds: Arc<Mutex<usize>>,
+        scales: Arc<Mutex<Vec<(usize, f64)>>>,
+    }
+    impl std::fmt::Display for F {
+        fn fmt(&self, f: &mut std::fmt::Formatter<'_>) -> std::fmt::Result {
+            f.write_str("repeated-ebn0-probe")
+        }
+    }
+    struct D {
+        idx: usize,
+        frames: u64,
+        f: F,
+    }
+    impl std::fmt::Debug for D {
+        fn fmt(&self, f: &mut std::fmt::Formatter<'_>) -> std::fmt::Result {
+            f.write_str("repeated-ebn0-probe decoder")
+        }
+    }
+    impl LdpcDecoder for D {
+        fn decode(&mut self, llrs: &[f64], _max: usize) -> Result<DecoderOutput, DecoderOutput> {
+            self.frames += 1;
+            let scale = llrs.iter().map(|x| x.abs()).sum::<f64>() / llrs.len().max(1) as f64;
+            self.f.scales.lock().unwrap().push((self.idx, scale));
+            let mut c: Vec<u8> = llrs.iter().map(|&x| u8::from(x <= 0.0)).collect();
+            if self.frames >= 6 {
+                c[0] ^= 1;
+                return Err(DecoderOutput { codeword: c, iterations: 1 });
+            }
+            Ok(DecoderOutput { codeword: c, iterations: 1 })
+        }
+    }
+    impl DecoderFactory for F {
+        fn build_decoder(&self, _h: SparseMatrix) -> Box<dyn LdpcDecoder> {
+            let mut b = self.builds.lock().unwrap();
+            *b += 1;
+            Box::new(D { idx: *b - 1, frames: 0, f: self.clone() })
+        }
+    }
+    let fac = F { builds: Arc::new(Mutex::new(0)), scales: Arc::new(Mutex::new(Vec::new())) };
+    let fac2 = fac.clone();
+    let list: Vec<f32> = ebn0s.to_vec();
+    let cfg = dstsim::Config { sched_seed: seed, entropy_seed: seed ^ 0x99, num_cpus: 1, max_steps: 200_000, keep_events: false, ..dstsim::Config::default() };
+    let out = dstsim::run(cfg, move || {
+        let t = BerTestBuilder { h, decoder_implementation: fac2, modulation: Modulation::Bpsk, puncturing_pattern: None, interleaving_columns: None, max_frame_errors: 1, max_iterations: 1, ebn0s_db: &list, reporter: None, bch_max_errors: 0 }
+            .build()
+            .map_err(|e| e.to_string())?;
+        t.run().map(|s| s.len()).map_err(|e| e.to_string())
+    });
+    let what = format!("Eb/N0 list {:?}", ebn0s);
+    match out.result {
+        RunResult::Done(Ok(n)) if n == ebn0s.len() => {}
+        RunResult::Done(Ok(n)) => return Some(Violation::new("repeated-ebn0", format!("{}: {} statistics returned for {} requested values", what, n, ebn0s.len()))),
+        RunResult::Done(Err(e)) => return Some(Violation::new("repeated-ebn0", format!("{}: the run failed: {}", what, e))),
+        other => return Some(Violation::new("repeated-ebn0", format!("{}: the run ended with {}", what, other.kind()))),
+    }
+    if *fac.builds.lock().unwrap() != ebn0s.len() {
+        return None; // another design than one decoder per point: the attribution below does not apply
+    }
+    let scales = fac.scales.lock().unwrap().clone();
+    let mean = |k: usize| -> Option<f64> {
+        let v: Vec<f64> = scales.iter().filter(|x| x.0 == k).map(|x| x.1).collect();
+        if v.is_empty() { None } else { Some(v.iter().sum::<f64>() / v.len() as f64) }
+    };
+    let s0 = mean(0)?;
+    for k in 1..ebn0s.len() {
+        let Some(sk) = mean(k) else {
+            return Some(Violation::new("repeated-ebn0", format!("{}: no frame was simulated for point {}", what, k)));
+        };
+        let want = 10f64.powf(f64::from(ebn0s[k] - ebn0s[0]) / 10.0);
+        if (sk / s0 / want - 1.0).abs() > 0.15 {
+            return Some(Violation::new(
+                "repeated-ebn0",
+                format!("{}: the frames of point {} ({} dB) have an LLR scale {:.3} times that of point 0 ({} dB); the requested Eb/N0 values call for {:.3}: the noise does not correspond to the Eb/N0 the point is reported under", what, k, ebn0s[k], sk / s0, ebn0s[0], want),
+            ));
+        }
+    }
+    None
+}
+
 pub fn long_cfgs(seed: u64, thorough: bool) -> Vec<LongCfg> {
     let mut g = Stream::new(seed, "c12-long-cfgs");
     let mut v = vec![
@@ -930,6 +1050,18 @@ pub fn main(opts: &Opts) -> ! {
                 "config": longs[i as usize].to_json(), "violation": {"kind": vio.kind, "detail": vio.detail}, "replay_verified": false,
             });
             let path = write_replay("C12", opts.seed, 2_000_000 + i, &body);
+            violations.push((path, vio.kind, vio.detail));
+        }
+    }
+    // Eb/N0 lists with consecutive repeats
+    let repeat_lists: Vec<Vec<f32>> = vec![vec![20.0, 26.0, 26.0, 32.0, 38.0], vec![24.0, 24.0, 30.0], vec![30.0, 22.0, 22.0, 22.0, 34.0]];
+    for (i, l) in repeat_lists.iter().enumerate() {
+        if let Some(vio) = repeated_ebn0_probe(l, dstsim::keyed(opts.seed, &[0xE0, i as u64])) {
+            let body = json!({
+                "property": "C12", "engine": "bersim-repeated-ebn0", "seed": opts.seed, "run": 3_000_000 + i as u64,
+                "config": {"ebn0s_db": l, "probe_seed": dstsim::keyed(opts.seed, &[0xE0, i as u64]).to_string()}, "violation": {"kind": vio.kind, "detail": vio.detail}, "replay_verified": false,
+            });
+            let path = write_replay("C12", opts.seed, 3_000_000 + i as u64, &body);
             violations.push((path, vio.kind, vio.detail));
         }
     }
